@@ -45,7 +45,7 @@ MODELS = {
 PLANS = {
     "C03": {"quick": [("sweep:14:5", 0, 0), ("hostile", 400, 60)],
             "thorough": [("sweep:40:15", 0, 0), ("hostile", 20000, 80)]},
-    "C05": {"quick": [("mixed", 250, 60), ("nomech", 120, 60), ("st", 120, 60)],
+    "C05": {"quick": [("mixed", 250, 60), ("nomech", 120, 60), ("st", 120, 60), ("lt", 150, 70)],
             "thorough": [("mixed", 4000, 80), ("nomech", 1500, 80), ("st", 1500, 80), ("lt", 1500, 80)]},
     "C06": {"quick": [("sched", 300, 50), ("mixed", 100, 60)],
             "thorough": [("sched", 5000, 70), ("mixed", 2000, 80)]},
@@ -53,7 +53,7 @@ PLANS = {
             "thorough": [("sched", 5000, 70), ("mixed", 2000, 80)]},
     "C12": {"quick": [("capacity", 300, 70), ("mixed", 100, 60)],
             "thorough": [("capacity", 5000, 200), ("mixed", 2000, 80)]},
-    "C17": {"quick": [("mixed", 300, 60), ("st", 150, 60)],
+    "C17": {"quick": [("mixed", 250, 60), ("st", 120, 60), ("lt", 250, 70)],
             "thorough": [("mixed", 4000, 80), ("st", 2000, 80), ("lt", 2000, 80)]},
     "C10": {"quick": [("mixed", 300, 60), ("st", 100, 60)],
             "thorough": [("mixed", 4000, 80), ("st", 2000, 80)]},
